@@ -1,3 +1,6 @@
+#[cfg(kanal_verif)]
+#[allow(unused_imports)]
+use crate::verif::{core, std};
 /// This module provides various backoff strategies that can be used to reduce
 /// the amount of busy waiting and improve the efficiency of concurrent systems.
 ///
